@@ -319,6 +319,16 @@ func (e *Ex) expr(v ssa.Value, d int) string {
 	case *ssa.Field:
 		return e.expr(x.X, d+1) + "." + fieldName(x.X.Type(), x.Field)
 	case *ssa.IndexAddr:
+		// x[lo:][i] with constant lo and i is x[lo+i]
+		if sl, ok := throughCell(strip(x.X)).(*ssa.Slice); ok && sl.Low != nil && sl.Max == nil {
+			if lo, isLo := intConst(sl.Low); isLo {
+				if i, isI := intConst(x.Index); isI {
+					if _, isArr := sl.X.Type().Underlying().(*types.Pointer); !isArr {
+						return e.expr(sl.X, d+1) + "[const(" + fmt.Sprint(lo+i) + ")]"
+					}
+				}
+			}
+		}
 		return e.expr(x.X, d+1) + "[" + e.expr(x.Index, d+1) + "]"
 	case *ssa.Index:
 		return e.expr(x.X, d+1) + "[" + e.expr(x.Index, d+1) + "]"
@@ -485,7 +495,7 @@ func simpleExpr(v ssa.Value, n *int) bool {
 				return false
 			}
 		} else if _, isFn := x.Call.Value.(*ssa.Function); !isFn {
-			if _, isB := x.Call.Value.(*ssa.Builtin); !isB {
+			if _, isB := x.Call.Value.(*ssa.Builtin); !isB && !simpleExpr(x.Call.Value, n) {
 				return false
 			}
 		}
